@@ -428,6 +428,26 @@ fn rand_id(rng: &mut Rng, max_id_len: usize) -> ChitchatId {
         for b in o.iter_mut() {
             *b = rng.next() as u8;
         }
+        // address classes that standard-library conversions treat specially
+        match rng.below(8) {
+            0 => {
+                // IPv4-mapped ::ffff:a.b.c.d
+                o[..10].fill(0);
+                o[10] = 0xff;
+                o[11] = 0xff;
+            }
+            1 => o[..12].fill(0), // IPv4-compatible ::a.b.c.d
+            2 => {
+                o.fill(0);
+                o[15] = 1; // loopback
+            }
+            3 => o.fill(0), // unspecified
+            4 => {
+                o[0] = 0xfe;
+                o[1] = 0x80; // link-local
+            }
+            _ => {}
+        }
         SocketAddr::from((o, rng.next() as u16))
     } else {
         SocketAddr::from(([rng.next() as u8, rng.next() as u8, rng.next() as u8, rng.next() as u8], rng.next() as u16))
@@ -610,6 +630,48 @@ pub fn gen_wire(seed: u64, tier: &Tier, shard: usize, nshards: usize, emit: &mut
                 }
                 emit(plist("dec", [hex(&m)]));
             }
+        }
+        // hostile compressed blocks: hand-made zstd frames (frame header variants with extreme
+        // declared content sizes; RLE blocks that expand to around and far beyond 65 535 bytes)
+        for _ in 0..3 {
+            let mut frame: Vec<u8> = vec![0x28, 0xB5, 0x2F, 0xFD];
+            let declared: u64 = [0u64, 1, 65_535, 65_536, 100_000, 1 << 20, 1 << 31, 1 << 63, u64::MAX, u64::MAX - 1][rng.below(10) as usize];
+            let actual: u32 = [1u32, 10, 65_535, 65_536, 100_000, 131_072][rng.below(6) as usize];
+            match rng.below(4) {
+                0 => {
+                    frame.push(0xE0); // single segment, 8-byte content size
+                    frame.extend_from_slice(&declared.to_le_bytes());
+                }
+                1 => {
+                    frame.push(0xA0); // single segment, 4-byte content size
+                    frame.extend_from_slice(&(if rng.chance(1, 2) { actual } else { declared as u32 }).to_le_bytes());
+                }
+                2 => {
+                    frame.push(0x00); // no content size, window descriptor follows
+                    frame.push(if rng.chance(1, 2) { 0x38 } else { rng.next() as u8 });
+                }
+                _ => {
+                    frame.push(rng.next() as u8);
+                    for _ in 0..rng.range(0, 9) {
+                        frame.push(rng.next() as u8);
+                    }
+                }
+            }
+            if rng.chance(3, 4) {
+                // one last RLE block of `actual` bytes
+                let hdr: u32 = (actual << 3) | (1 << 1) | 1;
+                frame.extend_from_slice(&hdr.to_le_bytes()[..3]);
+                frame.push(0x41);
+            } else {
+                for _ in 0..rng.range(0, 12) {
+                    frame.push(rng.next() as u8);
+                }
+            }
+            let mut m = vec![0x53, 0xB0, 0, 2, 1];
+            m.extend_from_slice(&(frame.len() as u16).to_le_bytes());
+            m.extend_from_slice(&frame);
+            m.push(0);
+            emit(plist("dec", [hex(&m)]));
         }
         // structure-aware: syntactically valid ops in semantically arbitrary order
         for _ in 0..4 {
@@ -947,6 +1009,31 @@ pub fn gen_cluster(seed: u64, tier: &Tier, shard: usize, nshards: usize, emit: &
                 emit(format!("(live {b})"));
             }
         }
+        // a truncated reset: node 0 owns more than a datagram of near-incompressible values, node 1
+        // has them all, node 0 collects a tombstone node 1 never saw, and the reset delta that
+        // follows is cut below the max version node 1 already had (a live member's copy moves
+        // *down* in max version: watch channel, frontier order, resurrection)
+        if !two_clusters && rng.chance(1, if tier.thorough { 60 } else { 120 }) {
+            for j in 0..4 {
+                let v = rand_string(&mut rng, 30_000, 2);
+                emit(format!("(set 0 {} {})", hex(format!("big{j}").as_bytes()), hex(v.as_bytes())));
+            }
+            for _ in 0..4 {
+                emit("(handshake 0 1)".to_string());
+                emit("(advance 3)".to_string());
+                emit("(handshake 1 0)".to_string());
+                emit("(advance 3)".to_string());
+            }
+            emit("(live 1)".to_string());
+            emit(format!("(del 0 {})", hex(b"big0")));
+            emit(format!("(advance {})", grace + 1));
+            emit("(gc 0)".to_string());
+            for _ in 0..3 {
+                emit("(handshake 0 1)".to_string());
+                emit("(live 1)".to_string());
+                emit("(advance 3)".to_string());
+            }
+        }
         // fair suffix: loss-free handshakes between every pair, a few rounds (C01)
         if !two_clusters {
             for _ in 0..(n + 3) {
@@ -995,7 +1082,8 @@ pub fn gen_catchup(seed: u64, tier: &Tier, shard: usize, nshards: usize, emit: &
                             }
                             1 => {
                                 // absent but remembered as garbage collected
-                                let copy = sorted_copy(9, cgc, cmax, vec![]);
+                                // (a copy nobody ever sent a heartbeat for has heartbeat 0)
+                                let copy = sorted_copy(if (sgc + smax) % 2 == 0 { 0 } else { 9 }, cgc, cmax, vec![]);
                                 emit(plist("setcopy", ["0".to_string(), p_id(&x), p_pcopy(&copy)]));
                                 emit(plist("rmcopy", ["0".to_string(), p_id(&x), "1".to_string()]));
                             }
@@ -1170,6 +1258,19 @@ pub fn gen_select(seed: u64, tier: &Tier, shard: usize, nshards: usize, emit: &m
 
 pub fn gen_server(seed: u64, tier: &Tier, shard: usize, nshards: usize, emit: &mut dyn FnMut(String)) {
     let ncases = if tier.thorough { 40_000 } else { 3_200 };
+    // gossip rounds of the real loop with known live / dead peers and seeds (pools of C17)
+    let npool = if tier.thorough { 640 } else { 96 };
+    for i in 0..npool {
+        if i % nshards != shard {
+            continue;
+        }
+        let mut rng = Rng::new(seed ^ ((i as u64) << 12) ^ 0x9001);
+        emit(format!("(case pool-{i})"));
+        let nlive = [0u64, 0, 1, 2, 3, 5][rng.below(6) as usize];
+        let ndead = [0u64, 1, 2, 4][rng.below(4) as usize];
+        let short = rng.chance(1, 2);
+        emit(format!("(poolcase {nlive} {ndead} {} {} {})", i % 4, if short { rng.range(5, 12) } else { rng.range(3, 8) }, short as u8));
+    }
     emit(format!("(case server-{shard})"));
     for i in 0..ncases {
         if i % nshards != shard {
